@@ -598,7 +598,8 @@ class World:
                 raise oserr(errno.EACCES, path)
             v = getattr(p, tail)
             if v is None:
-                raise oserr(errno.ENOENT, path)
+                # the kernel withholds the link of a live task: ENOENT, or ESRCH (psutil issues 503 / 2514)
+                raise oserr(errno.ESRCH if tail in getattr(p, "link_esrch", ()) else errno.ENOENT, path)
             return v
         if tail == "root":
             return "/"
@@ -647,8 +648,10 @@ class World:
         if tail == "smaps":
             return b"" if p.zombie else render_smaps(self, p)
         if tail == "smaps_rollup":
-            if p.zombie:
-                raise oserr(errno.ESRCH, path)          # show_smaps_rollup: !mmget_not_zero
+            if p.zombie or p.rollup == "esrch-read":
+                # show_smaps_rollup: !mmget_not_zero -- open() had succeeded; also seen for live processes (psutil's own
+                # comment in memory_full_info: "may fail with ESRCH on a number of live processes")
+                raise oserr(errno.ESRCH, path)
             return render_rollup(self, p)
         if tail == "comm":
             return p.comm + b"\n"
